@@ -294,6 +294,13 @@ let eval (kind : ostring) (ins : ostring list) : ostring list =
     [match c14_final h (List.map fst init_items) with
      | None -> "Panic"
      | Some r -> "Ok " ^ Stdlib.String.concat "," (List.map2 (fun it obj -> if (it_named it && obj) || not obj then "-" else dec_of_z (it_id it)) r !objs)]
+  | "succs_hist", [targets; ops] ->
+    let op_of t = match Stdlib.String.split_on_char ':' t with
+      | ["S"] -> (false, (nat_of_int 0, Z0))
+      | ["W"; i; b] -> (true, (nat_of_int (int_of_string i), z_of_dec b))
+      | _ -> failwith "succs op" in
+    let h = if ops = "" then [] else List.map op_of (Stdlib.String.split_on_char ',' ops) in
+    [Stdlib.String.concat ";" (List.map of_ints (c15_succs (ints_of targets) h))]
   | "fdec", [k; bits] ->
     let b = z_of_dec bits in
     [match k with
